@@ -19,8 +19,17 @@ def main():
     mod = importlib.import_module(a.prop.lower())
     ctx = Ctx(a.prop.upper(), a.tier, seed, level=getattr(mod, "LEVEL", "proof"))
     if a.replay:
-        rc = mod.replay(ctx, a.replay)
-        sys.exit(rc)
+        if hasattr(mod, "replay"):
+            sys.exit(mod.replay(ctx, a.replay))
+        # generic replay: re-run the check and report whether the recorded key fails again
+        import json
+        rec = json.load(open(a.replay))
+        print(f"replaying {a.replay}: key={rec.get('key')} (failing input recorded: {rec.get('failing_input_found')})")
+        mod.run(ctx)
+        rc = ctx.finish()
+        again = [k for k, _, _ in ctx.violations if k == rec.get("key")] + [k for k, _ in ctx.known_hits if k == rec.get("key")]
+        print("REPRODUCED" if again else "NOT REPRODUCED", rec.get("key"))
+        sys.exit(1 if again else 0)
     try:
         mod.run(ctx)
     except Exception:
